@@ -147,6 +147,7 @@ def check_m3(ctx) -> None:
     gens = {st.targets[0].id for st in ast.walk(w.node) if isinstance(st, ast.Assign) and isinstance(st.value, ast.Call) and
             (dotted_name(st.value.func) or '').endswith('default_rng') and isinstance(st.targets[0], ast.Name)}
     names = [a for a, _ in arms]
+    ctx.require(arms, 'work_package: no `<selector>.startswith(<name>)` dispatch arm found (idiom changed)')
     ctx.check(sorted(names) == sorted(DISTS), 'M3', 'work_package/dispatch-exhaustive', w.where,
               f'distribution dispatch handles {sorted(names)}, documented set is {sorted(DISTS)}',
               fact=f'arms: {names}')
